@@ -276,8 +276,25 @@ def body_gradient(case, ctx):
     if not np.array_equal(cg, -g):
         raise Violation(f"cost-gradient:{cls}", f"cost_gradient {cg} is not the exact negative of {g}")
     # derivative of the reference log-density w.r.t. each prediction, numerically in 40 digits
-    # (the step follows the scale of the datum: the density changes over distances of order s[i], whatever that is)
-    dLdF = [mp.diff(lambda f, i=i: ref_logpdf(cls, y[i], f, s[i]), mp.mpf(F[i]), h=mp.mpf(s[i]) * mp.mpf("1e-9")) for i in range(n)]
+    # the derivative of the named log-density with respect to its location, from the textbook formulas in 40-digit arithmetic
+    # (a numerical derivative of the reference log-density - used before - needs more digits than that for residuals of 1e-260 sigma,
+    # where log(1 + z^2) is 1 to 500 digits); cross-checked against that numerical derivative where it is well conditioned
+    def slope(i):
+        r, sc = mp.mpf(y[i]) - mp.mpf(F[i]), mp.mpf(s[i])
+        if cls == "gauss":
+            return r / sc**2
+        if cls == "cauchy":
+            return 2 * r / (sc**2 + r**2)
+        b = sc * mp.sqrt(3) / mp.pi
+        return mp.tanh(r / (2 * b)) / b
+
+    dLdF = [slope(i) for i in range(n)]
+    for i in range(n):
+        zi = abs((y[i] - F[i]) / s[i])
+        if 1e-3 < zi < 30:
+            num = mp.diff(lambda f, i=i: ref_logpdf(cls, y[i], f, s[i]), mp.mpf(F[i]), h=mp.mpf(s[i]) * mp.mpf("1e-9"))
+            if abs(num - dLdF[i]) > mp.mpf("1e-12") * abs(dLdF[i]):
+                raise AssertionError(f"oracle self-check failed: textbook slope {dLdF[i]} vs numerical {num}")
     J = model.jac(th)
     zabs = np.abs((y - F) / s)
     # what the rounding of y - F (eps (|y| + |F|)) can do to a slope: times the largest curvature of the log-density, 1/s^2 (gauss),
